@@ -6,7 +6,9 @@ typedef struct { const unsigned char *a, *b; int saw_a, saw_b, calls; } vh_es_cb
 static int vh_es_hash_x(unsigned char *output, const unsigned char *x32, const unsigned char *ell_a64, const unsigned char *ell_b64, void *data) {
     vh_es_cb *c = (vh_es_cb*)data;
     c->calls++; c->saw_a = !memcmp(ell_a64, c->a, 64); c->saw_b = !memcmp(ell_b64, c->b, 64);
-    memcpy(output, x32, 32); return 1;
+    /* a caller's hash function may write its output buffer before it has finished reading its (const) inputs */
+    { unsigned char t[32]; memset(output, 0xEE, 32); memcpy(t, x32, 32); memcpy(output, t, 32); }
+    return 1;
 }
 static int vh_es_hash_fail(unsigned char *output, const unsigned char *x32, const unsigned char *ell_a64, const unsigned char *ell_b64, void *data) {
     (void)output; (void)x32; (void)ell_a64; (void)ell_b64; (void)data; return 0;
